@@ -103,7 +103,8 @@ class C12(Prop):
         "loader_nload_largest_prefix", "loader_chunks_partition", "dsq_chunks_are_the_database", "pipe_order", "pipe_eof_after_all", "pipe_lanes", "pipe_no_deadlock", "pipe_no_lost_wakeup", "pipe_eof_delivered", "pipe_buffers",
         "dsq_open_written", "dsq_bytes_round_trip", "dsq_bytes_round_trip_defaults", "dsq_open_corrupt_header", "dsq_stub_tag",
         "dsq_threaded_read_is_database", "open_rejects", "read_written_database", "chunk_ownership_exclusive", "pipe_lock_discipline",
-        "codec_chunk_layout", "codec_unpack_smem", "codec_pack_unpack_smem", "dsq_chunks_unpack_in_place", "codec_pack_smem", "pipe_wait_conditions_guarded", "pipe_lane_local", "pipe_recycling_nchunk_local", "pipe_half_lane_local")]
+        "codec_chunk_layout", "codec_unpack_smem", "codec_pack_unpack_smem", "dsq_chunks_unpack_in_place", "codec_pack_smem", "pipe_wait_conditions_guarded", "pipe_lane_local", "pipe_recycling_nchunk_local", "pipe_half_lane_local",
+        "pipe_cut_safety", "pipe_cut_never_eof", "pipe_cut_no_deadlock", "pipe_cut_abort_final", "dsq_loader_outcomes")]
     claimed = True
     level_text = ("Theorems for every schedule of one reader and any number of workers (one atomic step per mutex-protected region, spurious wake-ups allowed): "
                   "conservation and exclusivity of blocks, FIFO on both queues (history variables), counters in range and pendingWorkers = number of sleepers, "
